@@ -385,6 +385,8 @@ struct Rewriter<'a, 'e> {
     thread: Vec<(String, String)>,
     /// R27 (per-function flag `tostring`): X.to_string() -> X.shim_to_string()
     tostring: bool,
+    /// R28: the spec function summed by `X.values().map(..).sum()` in this function (template section `//@sumspec`)
+    sumspec: Option<String>,
     /// R29: names of all functions that have a contract somewhere in contracts/ (never inlined)
     known: &'a std::collections::BTreeSet<String>,
     /// R29: the impl type of the function being extracted (for `self.helper(..)` / `Self::helper(..)`)
@@ -885,6 +887,25 @@ impl<'a, 'e, 'ast> Visit<'ast> for Rewriter<'a, 'e> {
                     self.ed.replace(a, b, pieces, "R5");
                     self.fire("R5");
                 }
+                // R28: X.values().map(C).sum()  ->  shim_values_sum(&X, C, Ghost(SPEC))     (SPEC: the template's `//@sumspec`)
+                //      X.values().map(C1).map(C2).sum()  ->  shim_values_sum2(&X, C1, C2, Ghost(SPEC))
+                else if let (Some((x, _)), syn::Expr::Closure(_), Some(spec)) = (Self::is_method(&inner, "values", 0), &margs[0], self.sumspec.clone()) {
+                    let pieces = vec![Self::lit("shim_values_sum(&"), self.sub(x.span()), Self::lit(", "), self.sub(margs[0].span()), Self::lit(&format!(", Ghost({}))", spec))];
+                    self.ed.replace(a, b, pieces, "R28");
+                    self.fire("R28");
+                    self.visit_expr(&margs[0]);
+                    return;
+                } else if let (Some((inner2, margs2)), syn::Expr::Closure(_), Some(spec)) = (Self::is_method(&inner, "map", 1), &margs[0], self.sumspec.clone()) {
+                    if let (Some((x, _)), syn::Expr::Closure(_)) = (Self::is_method(&inner2, "values", 0), &margs2[0]) {
+                        let pieces = vec![Self::lit("shim_values_sum2(&"), self.sub(x.span()), Self::lit(", "), self.sub(margs2[0].span()), Self::lit(", "),
+                                          self.sub(margs[0].span()), Self::lit(&format!(", Ghost({}))", spec))];
+                        self.ed.replace(a, b, pieces, "R28");
+                        self.fire("R28");
+                        self.visit_expr(&margs2[0]);
+                        self.visit_expr(&margs[0]);
+                        return;
+                    }
+                }
             }
         }
         // R21: X.try_into() -> X.shim_try_into()  (the generic TryInto blanket impl has no Verus spec; routed through a trait)
@@ -1173,7 +1194,7 @@ fn process_fn(ctx: &mut Ctx, d: &FnDirective, assume_default: bool, tfile: &str)
             let words: Vec<&str> = a.split_whitespace().collect();
             let lost = |what: &str| -> ! { fail(format!("{}:{}: lost anchor `{}` in {} ({})", tfile, d.tline, a, d.qual, what)) };
             match words[0] {
-                "extra_param" | "thread" => {}
+                "extra_param" | "thread" | "sumspec" => {}
                 "lettype" => {
                     // R23: type ascription on a local whose type rustc infers from later statements but a loop invariant needs earlier
                     let (nm, n) = resolve_n(words.get(1).unwrap_or_else(|| lost("missing name")));
@@ -1277,6 +1298,7 @@ fn process_fn(ctx: &mut Ctx, d: &FnDirective, assume_default: bool, tfile: &str)
             }).collect();
             let self_ty = { let q = d.qual.split('@').last().unwrap_or(""); q.rsplit_once("::").map(|(t, _)| t.to_string()) };
             let mut rw = Rewriter { src, ed: &mut ed, abort_allowed, fired: BTreeMap::new(), thread, tostring: d.opts.has("tostring"),
+                                    sumspec: d.sections.iter().find(|(a, _)| a == "sumspec").map(|(_, t)| t.trim().to_string()),
                                     known: &ctx.known, self_ty, inline_stack: vec![d.qual.split('@').last().unwrap_or("").rsplit("::").next().unwrap_or("").to_string()],
                                     inline_visited: Default::default() };
             rw.visit_block(loc.block);
